@@ -37,13 +37,15 @@ LAWS = ["eq-total", "reflexive", "symmetric", "complement", "eq-iff-same-literal
         "neg-involutive", "neg-is-additive-inverse", "neg-componentwise", "div-by-number-componentwise",
         "symmetric-across-provenance",
         "step-independent-of-history", "step-equals-application-on-fresh-values", "history-bindings-evaluate",
-        "mixed-order-total", "mixed-order-consistent", "mixed-order-flips", "compound-assignment-is-the-operator"]
+        "mixed-order-total", "mixed-order-consistent", "mixed-order-flips", "compound-assignment-is-the-operator",
+        "at-most-one-of-lt-eq-gt"]
 # history templates of SyltComposite!HistTemplates and the shapes of SyltComposite!HistTable: each must be judged
 TEMPLATES = ["eq-left", "eq-repeat", "eq-flip", "eq-right", "eq-inside", "eq-mixed", "ord-left", "ord-right", "le-left", "ord-flip",
              "ord-repeat", "ord-then-eq", "ord-inside", "add-repeat", "add-left", "arith-left", "arith-right", "sub-flip", "mul-div",
-             "neg-repeat", "arith-inside"]
+             "neg-repeat", "arith-inside", "eq-lit-var", "ord-lit-var", "add-lit-var", "add-chain", "arith-lit-var"]
 HIST_SHAPES = ["list(int)", "tuple(int,int)", "blob(B)", "enum(E)", "tuple(list(int),int)", "list(tuple(int))", "list(list(int))",
-               "tuple(tuple(int,int),int)", "tuple(str,int)", "blob(C)", "list(blob(A))", "str", "int"]
+               "tuple(tuple(int,int),int)", "tuple(str,int)", "blob(C)", "list(blob(A))", "str", "int",
+               "blob(F)", "tuple()", "tuple(int,tuple())", "float", "escstr", "tuple(escstr,int)", "numstr"]
 EQ = ("==", "!=")
 ORD = ("<", "<=", ">", ">=")
 
@@ -63,7 +65,11 @@ MUTATIONS = [("lt-first-only", "<", "tuple"), ("le-is-lt", "<=", "tuple"), ("tup
              ("tuple-add-in-place", "+", "tuple", "hist:"), ("blob-eq-caches-left", "==", "blob", "hist:"),
              ("variant-eq-sticky", "==", "enum", "hist:"),
              # replicas of the seeded faults 4 and 5: only numeric-looking strings / extreme integers notice them
-             ("add-via-string-metatable", "+", "str", "", "numstr"), ("tuple-cmp-subtracts", "<", "tuple", "", "bigint")]
+             ("add-via-string-metatable", "+", "str", "", "numstr"), ("tuple-cmp-subtracts", "<", "tuple", "", "bigint"),
+             # replicas of the seeded faults 7, 8 (and a neighbour of 8 that only a NaN component shows) and 9 (the last one rewrites
+             # the PROGRAM TEXT: `"x" + "y"` on two literals becomes the one literal "xy" - only escapes at the seam notice)
+             ("blob-eq-skips-functions", "==", "blob", "", "blob(F)"), ("tuple-lt-last-once", "<", "tuple", "", "tuple()"),
+             ("tuple-le-not-gt", "<=", "tuple", "", "floatx"), ("fold-string-literals", "+", "str", "", "escstr")]
 MIN_MUTATIONS_NOTICED = 12     # a restructured runtime may make some patches inapplicable (recorded), never most of them
 SPEC_FAULTS = ["lt-first-only", "eq-ignores-last", "sub-swapped"]
 
@@ -72,7 +78,8 @@ SPEC_FAULTS = ["lt-first-only", "eq-ignores-last", "sub-swapped"]
 
 def kind_of(shape):
     k = shape.split("~")[0].split("(")[0].split("/")[0]          # "l~r": mixed int / float ordering, the left type
-    return {"int": "number", "float": "number", "bigint": "number", "bigfloat": "number", "numstr": "str"}.get(k, k)
+    return {"int": "number", "float": "number", "bigint": "number", "bigfloat": "number", "floatx": "number", "numstr": "str",
+            "escstr": "str"}.get(k, k)
 
 
 def cell(item):
@@ -99,6 +106,8 @@ def show(v):
     if k in ("int", "bool"):
         return json.dumps(v["v"])
     if k == "str":
+        if isinstance(v["v"], list):       # a byte string of the escape universe
+            return json.dumps("".join(chr(b) for b in v["v"]))
         return json.dumps(v["v"])
     if k == "float":
         return repr(v["n"] / 2.0 ** v["d"])
@@ -170,7 +179,7 @@ def replay(wd, name, batches, patch=None):
     vlib.write_ndjson(bf, batches)
     # patch=None: the emitted Lua as it is - unless the caller of ./check exported C19_PREAMBLE_PATCH to see the whole check
     # run against a mutated (or, with repair-tuple-add, repaired) runtime without touching /repo
-    vlib.harness("c19", ["replay", bf, rf], env={"C19_PREAMBLE_PATCH": patch or os.environ.get("C19_PREAMBLE_PATCH", "none")}, timeout=1500)
+    vlib.harness("c19", ["replay", bf, rf], env={"C19_PREAMBLE_PATCH": patch or os.environ.get("C19_PREAMBLE_PATCH", "none")}, timeout=3600)
     res = vlib.read_ndjson(rf)
     if len(res) != len(batches) or any(len(r["verdicts"]) != len(b["items"]) for r, b in zip(res, batches)):
         vlib.tool_error("c19 returned results that do not match the batches (%s)" % name)
@@ -221,6 +230,15 @@ def judge(batches, results, verdicts, stats, decls):
             if "numstr" in it["shape"] and it["op"] in ("+", "+="):
                 key = "numeric-looking strings: %s %s" % (it["op"], "alone" if c[1] == "str" else "as tuple components")
                 stats["special"][key] = stats["special"].get(key, 0) + 1
+            if "blob(F)" in it["shape"] or it["shape"].startswith(("enum(W)", "blob(G)")):
+                stats["special"]["function-valued fields: == != on blobs holding them"] += 1
+            if "tuple()" in it["shape"] and it["op"] in ORD:
+                stats["special"]["width-0 tuples: ordering"] += 1
+            if "floatx" in it["shape"] and it["op"] in ORD and c[1] == "tuple":
+                stats["special"]["NaN / infinite components: ordering on tuples"] += 1
+            if "escstr" in it["shape"] and it["op"] == "+":
+                key = "escape literals: + on %s" % ("variables and literals" if it["form"].startswith("hist:") else "two literals")
+                stats["special"][key] += 1
             if it["form"].startswith("hist:"):
                 stats["hist_templates"][it["form"].split(":")[1]] = stats["hist_templates"].get(it["form"].split(":")[1], 0) + 1
                 stats["hist_shapes"][b["shape"]] = stats["hist_shapes"].get(b["shape"], 0) + 1
@@ -258,7 +276,7 @@ def corrupt(v):
     elif k == "float":
         v["n"] += 2 ** v["d"]          # + 1.0
     elif k == "str":
-        v["v"] += "x"
+        v["v"] += [120] if isinstance(v["v"], list) else "x"
     elif k in ("tuple", "list"):
         if v["es"]:
             v["es"][-1] = corrupt(v["es"][-1])
@@ -333,7 +351,7 @@ def control_mutations(wd, batches, results, skip=()):
             return cell(it) == (op, kind) and it["form"].startswith(form) and shp in it["shape"]
         if os.environ.get("C19_PREAMBLE_PATCH") == name or (op, kind) in skip:
             continue                       # demonstration run: this mutation is already in the results that are being judged
-        by_shape = {}
+        by_shape, every = {}, []
         for bi in order:
             b, r = batches[bi], results[bi]
             hit = [it for it, v in zip(b["items"], r["verdicts"]) if target(it) and v == "ok"]
@@ -342,6 +360,7 @@ def control_mutations(wd, batches, results, skip=()):
             if (op in EQ or op in ORD) and len({it["want"].get("v") for it in hit}) < 2:
                 continue                   # a batch in which the operator has one expected outcome only says little
             by_shape.setdefault((hit[0]["shape"], b["id"]["kind"]), []).append(bi)
+            every.append(bi)
         for key, bis in by_shape.items():  # some batches of every shape and job kind that has the cell, evenly spread
             n = 40 if form else 3
             by_shape[key] = bis if len(bis) <= n else [bis[(k * len(bis)) // n] for k in range(n)]
@@ -351,15 +370,23 @@ def control_mutations(wd, batches, results, skip=()):
             continue
         if not sel:
             vlib.tool_error("negative control: no batch exercises %s on %s (%s)" % (op, kind, form or "any form"))
-        res, _ = replay(wd, "mut-" + name, [batches[bi] for bi in sel], patch=name)
-        if any(r.get("patch") == "inapplicable" for r in res):
-            inapplicable.append(name)      # the runtime no longer has the definition this patch overrides
+        def noticed(sel, tag):
+            res, _ = replay(wd, "mut-" + name + tag, [batches[bi] for bi in sel], patch=name)
+            if any(r.get("patch") == "inapplicable" for r in res):
+                return None                # the runtime no longer has the definition this patch overrides
+            return sum(1 for bi, r in zip(sel, res)
+                       for it, v0, v in zip(batches[bi]["items"], results[bi]["verdicts"], r["verdicts"])
+                       if v0 == "ok" and v in FAILURES and target(it))
+        n = noticed(sel, "")
+        if n == 0:
+            # the sample did not show it: the control is decided on EVERY batch in which the operator is applied to such values
+            # in some form (a changed implementation may route part of the forms - say, literal operands - around the runtime)
+            rest = [bi for bi in every if bi not in set(sel)]
+            rest = rest if len(rest) <= 120 else [rest[(k * len(rest)) // 120] for k in range(120)]
+            n = noticed(rest, "-wide") if rest else 0
+        if n is None:
+            inapplicable.append(name)
             continue
-        n = 0
-        for bi, r in zip(sel, res):
-            for it, v0, v in zip(batches[bi]["items"], results[bi]["verdicts"], r["verdicts"]):
-                if v0 == "ok" and v in FAILURES and target(it):
-                    n += 1
         if n == 0 and any(v0 in FAILURES and target(it) for b, r in zip(batches, results) for it, v0 in zip(b["items"], r["verdicts"])):
             inapplicable.append(name + " (its operator already fails on these values in the run being judged)")
             continue
@@ -377,7 +404,7 @@ def control_spec_faults(wd):
     out = {}
     for fault in SPEC_FAULTS:
         r = vlib.tlc("MC_Composite", wd=wd, env={"TIER": "thorough", "SEED": vlib.seed(), "FAULT": fault, "ONLYKIND": "pairs", "ONLYT": 6},
-                     workers=2, tags=("REPLAY",), timeout=300, coverage=False, out_file=os.path.join(wd, "tlc-fault-%s.out" % fault))
+                     workers=2, tags=("REPLAY",), timeout=1800, coverage=False, out_file=os.path.join(wd, "tlc-fault-%s.out" % fault))
         if r.timed_out or r.ok or r.invariant_violated != "NoLawViolated":
             vlib.tool_error("negative control: with the specification fault %s TLC did not report NoLawViolated (log %s)" % (fault, r.log))
         laws = re.findall(r'viol = (\{[^}]*\})', open(r.log, encoding="utf-8", errors="replace").read())
@@ -456,7 +483,10 @@ def new_stats():
             "special": {"extreme integers: ordering on tuples": 0, "extreme integers: equality on tuples": 0,
                         "extreme integers: ordering on other values": 0, "extreme integers: equality on other values": 0,
                         "numeric-looking strings: + alone": 0, "numeric-looking strings: + as tuple components": 0,
-                        "numeric-looking strings: += alone": 0, "numeric-looking strings: += as tuple components": 0}}
+                        "numeric-looking strings: += alone": 0, "numeric-looking strings: += as tuple components": 0,
+                        "function-valued fields: == != on blobs holding them": 0, "width-0 tuples: ordering": 0,
+                        "NaN / infinite components: ordering on tuples": 0,
+                        "escape literals: + on two literals": 0, "escape literals: + on variables and literals": 0}}
 
 
 # --------------------------------------------------------------------------- entry
@@ -494,9 +524,9 @@ def run(ctx):
 
     # 1. TLC: the laws on every job, and the cases
     env = {"TIER": tier, "SEED": ctx.seed}
-    runs = [("table", dict(env), 900)]
+    runs = [("table", dict(env), 3600)]
     if tier == "thorough":
-        runs.append(("deep", dict(env, TIER="deep", NDEEP=600), 900))
+        runs.append(("deep", dict(env, TIER="deep", NDEEP=600), 3600))
     states = transitions = 0
     tlc_wall = {}
     universes, all_batches, all_results, laws_checked, recs_by = {}, [], [], {}, {}
@@ -555,13 +585,18 @@ def run(ctx):
                               "emitted_lua_mutations_inapplicable": inapplicable,
                               "specification_faults_rejected_by_tlc": faults},
            known_findings_hit=verdicts.known_hits, exhaustive=(tier == "thorough"),
-           rule="value expressions of the 32 types of SyltComposite!TypeTable (scalars, tuples, lists, blobs, enum values, nesting depth <= 2, "
+           rule="value expressions of the 78 types of SyltComposite!TypeTable (scalars, tuples of width 0-3, lists, blobs, enum values, nesting depth <= 2, "
                 "leaves from 2-4 ints / floats / strings), every ordered pair of equal type (quick: every s-th pair for the larger types, offset "
                 "by the seed, plus the whole diagonal; thorough: all pairs, plus sampled pairs of 7 depth-3 types), every operator the property names "
                 "for the type, unary minus, tuple / number, 38 mixed-provenance pairs and v op v on one object; HISTORIES: every triple (quick: every s-th) "
                 "of values of 13 types bound to three variables and each of the 21 templates of 3 applications over those variables (same object left, "
                 "right, repeated, inside a fresh tuple / list), expected values threaded through one state; extreme integers / floats (+-2^63, 2^53, 2^53+1) as "
                 "order-preserving aliases in comparisons and equality, int against float ordering, strings that look like numbers under + and +=; "
+                "blobs with a function-valued field (same / different function object x equal / different data) alone and inside tuples, lists, enum "
+                "payloads and blobs, blob fields / enum payloads of every scalar type; the unit tuple alone, as first / last / only component and in lists; "
+                "NaN and the infinities as float values and tuple / list components (comparisons only); string LITERALS with escapes (sequences of <= 2 of "
+                "14 atoms: plain characters, \\\\ \\n \\6 \\12 \\065 \\x41 \\z \\u{41} \\u{e9}) whose denotation TLC computes by Lua's lexical rules, + observed "
+                "through as_chars; history templates in which operands are written as literals, as variables and chained; "
                 "an application is non-trivial when "
                 "the compiler accepted it and the program ran, distinct = distinct (expression, expected value)",
            samples=samples)
@@ -570,7 +605,9 @@ def run(ctx):
               "minilua stands in for Lua 5.3 (no Lua interpreter exists in the sandbox)",
               "numbers are compared after normalising 2.0 to 2 on both sides; results outside the dyadic model (inexact quotients, division by "
               "zero, IEEE negative zero) are dropped by the specification, never judged",
-              "strings are over {a, b}; their order is the byte order",
+              "ordered strings are over {a, b}, their order is the byte order; the strings with escapes are compared and concatenated only",
+              "the globals qnan / pinf are written 0.0 / 0.0 and 1.0 / 0.0 in the program; the specification binds them to IEEE NaN and +infinity",
+              "a string literal denotes what Lua 5.3's lexical rules say (SyltComposite!Denote); Sylt hands the text between the quotes to Lua",
               "the printer (AST -> Sylt text) and the rendering of expected values (c19 / util.rs render_value) are trusted")
     rc = verdicts.finish()
     ev.violations = len(verdicts.violations)
